@@ -52,6 +52,14 @@ Theorem C15_complete_unless_late_resend : forall (C : Type) job boot ls s, 0 <= 
 Proof. exact complete_unless_late_resend. Qed.
 Print Assumptions C15_complete_unless_late_resend.
 
+(* ... and the same holds when the reset transmission itself is corrupted, provided the firmware boots expecting N0
+   (then the reset is redundant).  Together: a job can only end incomplete through a Resend read after the print thread
+   stopped, or through a corrupted reset on a firmware that boots expecting another number (C15_refuted_m110). *)
+Theorem C15_complete_unless_late_resend_boot0 : forall (C : Type) job g ls s,
+  run C job ls (init C 0 g) = Some s -> quiescent C s -> resendfrom C (snd_ C s) = -1 ->
+  accepted C (fw C s) = cmds_of C job.
+Proof. exact complete_unless_late_resend_boot0. Qed.
+
 (* COMPLETENESS on a clean link, for every interleaving (arbitrary firmware latency) and boot state *)
 Theorem C15_complete_clean : forall (C : Type) job boot ls s, 0 <= boot -> Forall clean_label ls ->
   run C job ls (init C boot true) = Some s -> quiescent C s -> accepted C (fw C s) = cmds_of C job.
